@@ -21,9 +21,11 @@ pub fn handle_mget(storage: &Arc<StorageEngine>, db: usize, parts: &[RespFrame])
             _ => return Ok(RespFrame::error("ERR invalid key format")),
         };
         
-        match storage.get_string(db, key)? {
-            Some(value) => values.push(RespFrame::from_bytes(value)),
-            None => values.push(RespFrame::null_bulk()),
+        // A key that holds something other than a string is nil in its slot, not an error
+        // for the whole command
+        match storage.get(db, key)? {
+            crate::storage::GetResult::Found(crate::storage::Value::String(value)) => values.push(RespFrame::from_bytes(value)),
+            _ => values.push(RespFrame::null_bulk()),
         }
     }
     
